@@ -63,6 +63,7 @@ type Report struct {
 	Outcomes    int64 // distinct (state, observation) classes: here distinct model states at leaves
 	MaxDepth    int
 	Exhaustive  bool
+	Shallow     bool // every scenario was explored completely at depth bound - 1 (iterative deepening pass)
 	Found       []Found
 	FoundTotal  int64
 	Samples     []string
@@ -312,7 +313,7 @@ func Explore(sc *Scenario, opt Options) *Report {
 	if opt.MaxFound == 0 {
 		opt.MaxFound = 20
 	}
-	rep := &Report{Exhaustive: true}
+	rep := &Report{Exhaustive: true, Shallow: true}
 	allStates := map[uint64]struct{}{}
 	allNT := map[uint64]struct{}{}
 	found := map[string]*Found{}
